@@ -490,7 +490,9 @@ Proof.
   { subst md. destruct tgt, comp; reflexivity. }
   destruct (transfer_ok s cs tgt None rechunk G Htg) as (outs & E & Hne & W & R & C & Hs & Hc).
   { intros t Ht; discriminate. }
-  rewrite E. cbn [run_saver].
+  assert (Hinit : lookup src (put tmp (open_md md []) (remove tmp (remove dst fs))) = Some s).
+  { rewrite lookup_put_other by auto. rewrite !lookup_remove_other by auto. exact Hl. }
+  rewrite Hinit. rewrite E. cbn [run_saver].
   set (infos := map (info_of enc (md_comp md)) outs).
   set (s' := close_md md infos false).
   set (tr0 := saver_trace fs dst tmp md infos s').
